@@ -129,6 +129,14 @@ VBin(o, d, a, b)      == PutV(d, VBinRes(o, a, b), o, "bin", <<a, b>>)
 VUn(o, d, a)          == VUnDom(o, a) /\ PutV(d, VUnRes(o, a), o, "un", <<a>>)
 VShift(o, d, a, s)    == VShiftDom(o, a, s) /\ PutV(d, VShiftRes(o, a, s), o, "shift", <<a, s>>)
 VShiftV(o, d, a, b)   == VShiftVDom(o, a, b) /\ PutV(d, VShiftVRes(o, a, b), o, "shiftv", <<a, b>>)
+\* integer division (C05) is a relation accepted by postcondition: both results are parameters of the step and every
+\* lane inside the domain must satisfy DivRel; a zero divisor (or MIN / -1) leaves that lane of both results open.
+\* Two destinations, so the step is not a VecAct: Frame has its own clause.
+VDivOK(a, b, q, r)    == \A i \in 1..N : DivDomain(Kind, V[a][i], V[b][i]) => DivRel(Kind, V[a][i], V[b][i], q[i], r[i])
+VDiv(dq, dr, a, b, q, r) == /\ dq # dr /\ (VDivOK(a, b, q, r) = TRUE)      \* (= TRUE: evaluated as a state predicate; as an action conjunct TLC
+                                                                          \*  would split the disjunctions inside DivRel into successors)
+                            /\ V' = [V EXCEPT ![dq] = q, ![dr] = r]
+                            /\ Note("div", "div", <<dq, dr>>, <<a, b>>) /\ UNCHANGED <<K, mem, env>>
 \* comparisons produce masks (C02); mask algebra (C03)
 VCmp(o, k, a, b)      == PutK(k, VCmpRes(o, a, b), o, "cmp", <<a, b>>)
 KBin(o, k, a, b)      == PutK(k, KBinRes(o, a, b), o, "kbin", <<a, b>>)
@@ -173,6 +181,12 @@ Next ==
   \/ \E k \in KRegs, a \in VRegs : KFromVec(k, a)
   \/ \E d \in VRegs, p \in 1..MemSize, n \in 0..(N + 1) : Load(d, p, n) \/ Store(d, p, n)
   \/ \E m \in Modes : SetEnv(m)
+  \* (bounded exploration runs with one-byte unsigned lanes, where the quotient is a function of naturals; an open
+  \* lane takes 0 - any value would do)
+  \/ /\ W = 1 /\ Kind = "u"
+     /\ \E dq \in VRegs, dr \in VRegs, a \in VRegs, b \in VRegs :
+          VDiv(dq, dr, a, b, [i \in 1..N |-> IF V[b][i][1] = 0 THEN ZeroLane ELSE <<V[a][i][1] \div V[b][i][1]>>],
+                             [i \in 1..N |-> IF V[b][i][1] = 0 THEN ZeroLane ELSE <<V[a][i][1] % V[b][i][1]>>])
 Spec == Init /\ [][Next]_vars
 
 (***************************************************************************)
@@ -195,6 +209,9 @@ Frame ==
   /\ (last.a \in VecActs =>
         /\ K = last.pre.K
         /\ \A r \in VRegs : r # last.d => V[r] = last.pre.V[r])
+  /\ (last.a = "div" =>
+        /\ K = last.pre.K
+        /\ \A r \in VRegs : (r # last.d[1] /\ r # last.d[2]) => V[r] = last.pre.V[r])
   /\ (last.a \in MaskActs =>
         /\ V = last.pre.V
         /\ \A r \in KRegs : r # last.d => K[r] = last.pre.K[r])
